@@ -272,6 +272,7 @@ class C11(Check):
         "the patches and the decision to write are taken from sqlfluff's own read-only API run on the same bytes "
         "(C10/C30 judge the patches themselves)",
         "line-end style of the written file is not judged (the statement compares after normalising to LF)",
+        "UTF-16 byte order is not judged: a big-endian file comes back little-endian with BOM, characters unchanged",
     ]
 
     def selftest(self):
@@ -485,6 +486,8 @@ class C11(Check):
             out.nontrivial = True
             out.label("non-ascii+changed")
         sig2 = dict(sig, undecodable=bool(f.get("undecodable")))
+        if bom_class(now) == "utf-16" and now[:2] != f["orig"][:2]:
+            out.label("utf16-byte-order-changed(not-judged)")
         if bom_class(now) != bom_class(f["orig"]):
             out.fail(f"{f['name']}: BOM {bom_class(f['orig'])} -> {bom_class(now)}; effective encoding {f['enc']}",
                      kind="bom-changed", **sig2)
